@@ -247,7 +247,9 @@ func (rm *RequestManager) releaseRequestTask(p peer.ID, task *peertask.Task, err
 	if !ok {
 		return
 	}
-	if _, ok := err.(hooks.ErrPaused); ok {
+	// a request that was cancelled while it was running has to terminate now, even if
+	// the executor stopped because a block hook or pause command asked it to pause
+	if _, ok := err.(hooks.ErrPaused); ok && ipr.ctx.Err() == nil {
 		ipr.state = graphsync.Paused
 		return
 	}
